@@ -21,6 +21,7 @@ import (
 
 	"github.com/risor-io/risor"
 	"github.com/risor-io/risor/compiler"
+	"github.com/risor-io/risor/object"
 	"github.com/risor-io/risor/op"
 	"github.com/risor-io/risor/parser"
 	"github.com/risor-io/risor/vm"
@@ -69,6 +70,7 @@ func operandCount(o op.Code) int { return op.GetInfo(o).OperandCount }
 // stepsWorker runs the program with the step hook installed.
 func stepsWorker(req N) (resp N) {
 	max := int(req["max"].(float64))
+	values, _ := req["values"].(bool)
 	var steps []any
 	truncated := false
 	var machine *vm.VirtualMachine
@@ -120,6 +122,17 @@ func stepsWorker(req N) (resp N) {
 				b = m.VerifOperand(2)
 			}
 		}
+		if values {
+			// value level: the three topmost operand stack slots before the instruction executes, and for a call
+			// the kind of the callee
+			callee := ""
+			if opcode == op.Call {
+				callee = project(m.VerifStackAt(sp - a))["t"].(string)
+			}
+			steps = append(steps, N{"c": actOf[fp], "i": ip, "o": int(opcode), "a": a, "b": b, "p": sp, "k": callee,
+				"t": []any{project(m.VerifStackAt(sp)), project(m.VerifStackAt(sp - 1)), project(m.VerifStackAt(sp - 2))}})
+			return
+		}
 		steps = append(steps, []any{actOf[fp], ip, int(opcode), a, b, sp, m.VerifCodeLen()})
 	}
 	ctx, cancel := context.WithTimeout(context.Background(), 5*time.Second)
@@ -149,6 +162,53 @@ func stepsWorker(req N) (resp N) {
 	return out
 }
 
+// project is the value-level view of an operand stack slot: t = kind, v = integer payload (the value of an int, 0/1 of a
+// bool, the length of a string or container), s = the code points of a short string. Every record has all three
+// fields so that TLC can compare any two of them.
+func project(o object.Object) N {
+	p := func(t string, v int, s []any) N { return N{"t": t, "v": v, "s": s} }
+	none := []any{}
+	switch o := o.(type) {
+	case nil:
+		return p("z", 0, none)
+	case *object.Int:
+		if v := o.Value(); v > -(1<<30) && v < (1<<30) {
+			return p("i", int(v), none)
+		}
+		return p("I", 0, none)
+	case *object.Bool:
+		if o.Value() {
+			return p("b", 1, none)
+		}
+		return p("b", 0, none)
+	case *object.NilType:
+		return p("n", 0, none)
+	case *object.String:
+		rs := []rune(o.Value())
+		if len(rs) <= 12 {
+			cps := make([]any, len(rs))
+			for i, r := range rs {
+				cps[i] = int(r)
+			}
+			return p("s", len(rs), cps)
+		}
+		return p("S", len(rs), none)
+	case *object.List:
+		return p("l", len(o.Value()), none)
+	case *object.Map:
+		return p("m", len(o.Value()), none)
+	case *object.Set:
+		return p("e", len(o.Value()), none)
+	case *object.Float:
+		return p("f", 0, none)
+	case *object.Function:
+		return p("fn", 0, none)
+	case *object.Builtin:
+		return p("bi", 0, none)
+	}
+	return p("o", 0, none)
+}
+
 func scaleWorker(req N) N {
 	tmpl := req["tmpl"].(string)
 	res := N{}
@@ -175,6 +235,7 @@ func main() {
 	in := fs.String("in", "", "")
 	out := fs.String("out", "", "")
 	max := fs.Int("max", 4000, "")
+	values := fs.Bool("values", false, "steps: record the value-level view of the operand stack")
 	fs.Parse(os.Args[2:])
 	rows, err := run.ReadNDJSON(*in)
 	if err != nil {
@@ -187,7 +248,7 @@ func main() {
 		case "codes":
 			reqs[i] = N{"src": r["src"]}
 		case "steps":
-			reqs[i] = N{"src": r["src"], "max": *max}
+			reqs[i] = N{"src": r["src"], "max": *max, "values": *values}
 		case "scale":
 			reqs[i] = r
 		}
